@@ -880,8 +880,10 @@ class QMI_Context:
                     # Register the object manager under the claimed name.
                     self._rpc_object_map[rpc_object_name] = manager
 
-                # Register the object manager as message handler.
-                self.register_message_handler(manager)
+                    # Register the object manager as message handler.
+                    # This is done while still holding the lock, so that a concurrent stop() never
+                    # finds a manager in the object map which is not yet registered as message handler.
+                    self.register_message_handler(manager)
 
             finally:
                 if proxy is None:
